@@ -171,7 +171,13 @@ IndInit ==
   /\ memo = Gen(4)
   /\ IndInv
 
-\* a larger arbitrary pre-state (slower)
+\* larger arbitrary pre-states (slower: IndInit6 took 8-12 minutes; it is not part of the routine run)
+IndInit5 ==
+  /\ cur = Gen(5)
+  /\ com = Gen(5)
+  /\ memo = Gen(5)
+  /\ IndInv
+
 IndInit6 ==
   /\ cur = Gen(6)
   /\ com = Gen(6)
